@@ -7,3 +7,9 @@ import EV.Model.Index
 import EV.Spec.Chain
 import EV.Model.Merkle
 import EV.Props.C12
+import EV.Model.Peers
+import EV.Props.C19
+import EV.Props.C01
+import EV.Proofs.IndexFlushUtxo
+import EV.Proofs.IndexUndo
+import EV.Proofs.IndexMap
